@@ -2,6 +2,8 @@ import SdcModel.LockLts
 import SdcModel.Proofs.LockLts
 import SdcModel.Properties.C07
 import SdcModel.Generated.PeriodicProg
+import SdcModel.Proofs.PeriodicStore
+import SdcModel.Generated.PeriodicStoreProg
 /-!
 # C04 (periodic reports): the copies collected for a periodic report are a snapshot of the version they are labelled with
 The collector of `PeriodicReportsHandler._periodic_reports_send_loop` is a reader in the interleaving semantics of
@@ -29,5 +31,40 @@ theorem periodic_copies_are_snapshot (c0 c : Cfg) (h0 : Init c0)
 /-- the discipline matters: a collector that reads the label before taking the lock, or a state after releasing it, is rejected -/
 example : ¬ WellLocked [.rdV, .acq 0, .rdC, .rel 0] := by decide
 example : ¬ WellLocked [.acq 0, .rdV, .rdC, .rel 0, .rdC] := by decide
+
+/-! ## the store of the fixed-interval periodic reports (`SdcModel/PeriodicStore.lean`) -/
+open Sdc.PeriodicStore in
+/-- what one period of the real loop does to each of the five store lists (traced on every run) is the program the theorems
+    below speak of: copy and empty inside ONE critical section of the store lock, send after it -/
+theorem generated_store_programs_good :
+    Generated.periodicStoreProgs.map (·.1) = ["metric", "alert", "component", "context", "operational"]
+      ∧ ∀ p ∈ Generated.periodicStoreProgs, p.2 = good := by
+  decide
+
+open Sdc.PeriodicStore in
+/-- For ANY interleaving of commits (`put`) with the blocks of the collector, at every moment: what has been sent in periodic
+    reports, followed by what the collector holds, followed by what is still stored, is exactly what the commits stored, in
+    their order – nothing lost, nothing twice, nothing invented, whenever the writers run relative to the collector. -/
+theorem periodic_store_conserves (evs : List Ev) :
+    (run good {} evs).out ++ (run good {} evs).tmp ++ (run good {} evs).store = puts evs := by
+  have := (run_inv evs {} [] inv_init).1
+  simpa using this
+
+open Sdc.PeriodicStore in
+/-- … and after three more blocks of the collector (at most one and a half periods) without a commit in between, every state that
+    any commit stored has been sent in a periodic report exactly once, in commit order -/
+theorem periodic_store_flushes (evs : List Ev) : (run good {} (evs ++ [.col, .col, .col])).out = puts evs := by
+  rw [run_append]
+  have h := run_inv evs {} [] inv_init
+  simpa using flush _ _ h
+
+/-- the discipline matters: emptying the store only after the send loses what a commit stored in between (here: 2) -/
+example : (Sdc.PeriodicStore.run [[.take], [.send], [.clear]] {}
+    [.put 1, .col, .put 2, .col, .col, .col, .col, .col, .col, .col, .col]).out = [1] := by decide
+/-- … and copying outside the critical section that empties it does as well -/
+example : (Sdc.PeriodicStore.run [[.take], [.clear], [.send]] {}
+    [.put 1, .col, .put 2, .col, .col, .col, .col, .col]).out = [1] := by decide
+/-- the hypothesis is met by a non-trivial run -/
+example : (Sdc.PeriodicStore.run Sdc.PeriodicStore.good {} [.put 1, .col, .put 2, .col, .put 3, .col, .col, .col]).out = [1, 2, 3] := by decide
 
 end Sdc.C04
